@@ -128,7 +128,7 @@ Theorem C11_pattern_order : forall t,
   ((exists ps, server_patterns t = Built ps) <-> pats_consistent (collect_patterns t))
   /\ forall ps, server_patterns t = Built ps ->
        Permutation ps (collect_patterns t) /\ StronglySorted before ps /\ pats_consistent ps.
-Proof. exact (fun t => conj (server_iff t) (http_patterns_order t)). Qed.
+Proof. exact pattern_order. Qed.
 
 (** DUPLICATES, HTTP.  Two primary methods of different names carrying the same HttpPattern: the server is rejected *)
 Theorem C11_identical_pattern_rejected : forall a t d1 d2 p,
